@@ -38,7 +38,10 @@ type c15Client struct {
 }
 
 type c15Event struct {
-	K       string   `json:"k"` // m message, a puback, t resend tick, off / on
+	K       string   `json:"k"` // m message, a puback, t resend tick, off / on, sub / unsub / disc, pub (client PUBLISH burst)
+	Subs    []c15Sub `json:"subs,omitempty"` // sub
+	Fs      []string `json:"fs,omitempty"`   // unsub
+	Pubs    []c15Pub `json:"pubs,omitempty"` // pub: PUBLISH packets processed back-to-back before the queue is written out
 	Via     string   `json:"via,omitempty"`
 	Topic   string   `json:"topic,omitempty"`
 	QoS     int      `json:"qos,omitempty"`
@@ -52,7 +55,14 @@ type c15Event struct {
 	ID      int      `json:"id,omitempty"`
 }
 
+type c15Pub struct {
+	Topic string `json:"topic"`
+	QoS   int    `json:"qos"`
+	ID    int    `json:"id"`
+}
+
 type c15Input struct {
+	Limit   int         `json:"limit,omitempty"` // ClientPublishLimit.RequestRate per 1000 s for every client (0 = none)
 	Clients []c15Client `json:"clients"`
 	Events  []c15Event  `json:"events"`
 	Rep     int         `json:"rep,omitempty"` // run the scenario this many times on fresh state (map orders vary)
@@ -61,6 +71,8 @@ type c15Input struct {
 type c15Step struct {
 	Status int                 `json:"st"`
 	Out    map[string][]string `json:"out,omitempty"` // client -> "id:qos:payload" of PUBLISH packets queued
+	Acks   []int               `json:"acks,omitempty"` // pub: packet ids of the PUBACKs as encoded when the queue is written out
+	Pipe   []c15wPipe          `json:"pipe,omitempty"` // pub: calls seen by the Publish pipeline
 	Note   string              `json:"note,omitempty"`
 }
 
@@ -71,6 +83,7 @@ type c15Obs struct {
 var (
 	c15Once   sync.Once
 	c15Broker *Broker
+	c15Rec    = &c15wRecorder{}
 )
 
 func c15GetBroker() *Broker {
@@ -80,7 +93,8 @@ func c15GetBroker() *Broker {
 			name:      "verif-c15",
 			spec:      &Spec{Name: "verif-c15", EGName: "verif"},
 			clients:   make(map[string]*Client),
-			pipelines: make(map[PacketType]string),
+			pipelines: map[PacketType]string{Publish: "verif-publish"},
+			muxMapper: &c15wMapper{h: c15Rec},
 			done:      make(chan struct{}),
 			memberURL: func(string, string) ([]string, error) { return nil, nil },
 		}
@@ -93,11 +107,15 @@ func c15GetBroker() *Broker {
 }
 
 // c15Connect registers a connected client whose session has no background resend goroutine.
-func c15Connect(b *Broker, cid string) *Client {
+func c15Connect(b *Broker, cid string, limit int) *Client {
 	connect := packets.NewControlPacket(packets.Connect).(*packets.ConnectPacket)
 	connect.ClientIdentifier = cid
 	connect.CleanSession = true
-	c := newClient(connect, b, nil, nil)
+	var lim *RateLimit
+	if limit > 0 {
+		lim = &RateLimit{RequestRate: limit, TimePeriod: 1000}
+	}
+	c := newClient(connect, b, nil, lim)
 	s := &Session{}
 	s.init(b.sessMgr, b, connect)
 	b.sessMgr.sessionMap.Store(cid, s)
@@ -108,18 +126,43 @@ func c15Connect(b *Broker, cid string) *Client {
 	return c
 }
 
-func c15DrainPublishes(c *Client) []string {
-	var out []string
+// c15Drain empties the client's outbound queue the way writeLoop does: every packet is *encoded*
+// (ControlPacket.Write) at the moment it leaves the queue and decoded again with the paho codec, so what
+// is recorded is what would be on the wire (a packet object mutated after it was queued shows its
+// final content). QoS0 PUBLISH packets carry no id on the wire: their id is taken from the object.
+func c15Drain(c *Client) (pubs []string, acks []int) {
 	for {
 		select {
 		case p := <-c.writeCh:
-			if pub, ok := p.(*packets.PublishPacket); ok {
-				out = append(out, fmt.Sprintf("%d:%d:%s", pub.MessageID, pub.Qos, string(pub.Payload)))
+			var buf bytes.Buffer
+			if err := p.Write(&buf); err != nil {
+				continue
+			}
+			dp, err := packets.ReadPacket(&buf)
+			if err != nil {
+				continue
+			}
+			switch d := dp.(type) {
+			case *packets.PublishPacket:
+				id := d.MessageID
+				if d.Qos == 0 {
+					if o, ok := p.(*packets.PublishPacket); ok {
+						id = o.MessageID
+					}
+				}
+				pubs = append(pubs, fmt.Sprintf("%d:%d:%s", id, d.Qos, string(d.Payload)))
+			case *packets.PubackPacket:
+				acks = append(acks, int(d.MessageID))
 			}
 		default:
-			return out
+			return pubs, acks
 		}
 	}
+}
+
+func c15DrainPublishes(c *Client) []string {
+	pubs, _ := c15Drain(c)
+	return pubs
 }
 
 // c15FanoutRunning reports whether a goroutine started by httpTopicsPublishHandler is alive
@@ -158,6 +201,9 @@ func c15Exec(raw json.RawMessage) interface{} {
 func c15ExecOnce(in c15Input) c15Obs {
 	b := c15GetBroker()
 	b.topicMgr = newTopicManager(64)
+	c15Rec.mu.Lock()
+	c15Rec.calls = nil
+	c15Rec.mu.Unlock()
 	clients := map[string]*Client{}
 	order := []string{}
 	defer func() {
@@ -188,7 +234,7 @@ func c15ExecOnce(in c15Input) c15Obs {
 		if _, dup := clients[cl.ID]; dup {
 			continue
 		}
-		c := c15Connect(b, cl.ID)
+		c := c15Connect(b, cl.ID, in.Limit)
 		clients[cl.ID] = c
 		order = append(order, cl.ID)
 		if len(topics) > 0 {
@@ -267,6 +313,67 @@ func c15ExecOnce(in c15Input) c15Obs {
 				c.session.doResend()
 			}
 			st.Out = collect()
+		case "sub":
+			if c, ok := clients[ev.C]; ok && len(ev.Subs) > 0 {
+				p := packets.NewControlPacket(packets.Subscribe).(*packets.SubscribePacket)
+				p.MessageID = 2
+				for _, s := range ev.Subs {
+					p.Topics = append(p.Topics, s.F)
+					p.Qoss = append(p.Qoss, byte(s.Q))
+				}
+				c.processPacket(p)
+			}
+			st.Out = collect()
+		case "unsub":
+			if c, ok := clients[ev.C]; ok && len(ev.Fs) > 0 {
+				p := packets.NewControlPacket(packets.Unsubscribe).(*packets.UnsubscribePacket)
+				p.MessageID = 3
+				p.Topics = append([]string{}, ev.Fs...)
+				c.processPacket(p)
+			}
+			st.Out = collect()
+		case "disc":
+			if c, ok := clients[ev.C]; ok {
+				c.closeAndDelSession()
+				b.removeClient(ev.C)
+				b.Lock()
+				delete(b.clients, ev.C)
+				b.Unlock()
+				delete(clients, ev.C)
+				for i, id := range order {
+					if id == ev.C {
+						order = append(order[:i:i], order[i+1:]...)
+						break
+					}
+				}
+			}
+			st.Out = collect()
+		case "pub":
+			if c, ok := clients[ev.C]; ok {
+				c15Rec.mu.Lock()
+				before := len(c15Rec.calls)
+				c15Rec.mu.Unlock()
+				for _, pb := range ev.Pubs {
+					if len(c.writeCh) >= cap(c.writeCh)-1 {
+						break // never block: there is no writeLoop here
+					}
+					p := packets.NewControlPacket(packets.Publish).(*packets.PublishPacket)
+					p.TopicName = pb.Topic
+					p.Qos = byte(pb.QoS)
+					p.MessageID = uint16(pb.ID)
+					p.Payload = []byte("up")
+					c.processPacket(p)
+				}
+				// only now is the queue written out (a write loop that lags behind the read loop)
+				pubs, acks := c15Drain(c)
+				st.Acks = acks
+				if len(pubs) > 0 {
+					st.Out = map[string][]string{ev.C: pubs}
+				}
+				c15Rec.mu.Lock()
+				st.Pipe = append([]c15wPipe{}, c15Rec.calls[before:]...)
+				c15Rec.mu.Unlock()
+			}
 		case "off":
 			b.Lock()
 			delete(b.clients, ev.C)
@@ -284,7 +391,7 @@ func c15ExecOnce(in c15Input) c15Obs {
 }
 
 func c15GenFilter(r *verifh.Rand) string {
-	return r.Pick("a", "a/b", "a/+", "a/#", "+/b", "#", "+/+", "b", "a/b/#", "+", "b/#", "a/b/a")
+	return r.Pick("a", "a/b", "a/b", "a/+", "a/#", "+/b", "#", "+/+", "b", "a/b/#", "a/b/#", "+", "b/#", "a/b/a", "a/b/a", "a/b/+")
 }
 
 func c15GenTopic(r *verifh.Rand) string {
@@ -293,6 +400,10 @@ func c15GenTopic(r *verifh.Rand) string {
 
 func c15Gen(r *verifh.Rand, i int) interface{} {
 	in := c15Input{Rep: 3}
+	if r.Bool(1, 4) {
+		in.Limit = r.PickInt(1, 2, 3)
+	}
+	held := map[string][]string{}
 	n := r.Range(2, 6)
 	var ids []string
 	for k := 0; k < n; k++ {
@@ -305,6 +416,7 @@ func c15Gen(r *verifh.Rand, i int) interface{} {
 				q = 0
 			}
 			cl.Subs = append(cl.Subs, c15Sub{F: c15GenFilter(r), Q: q})
+			held[cl.ID] = append(held[cl.ID], cl.Subs[j].F)
 		}
 		if r.Bool(1, 10) {
 			cl.Ghost = true
@@ -329,7 +441,36 @@ func c15Gen(r *verifh.Rand, i int) interface{} {
 	ne := r.Range(3, 30)
 	seq := 0
 	for k := 0; k < ne; k++ {
-		switch x := r.Intn(20); {
+		switch x := r.Intn(28); {
+		case x >= 20 && len(ids) > 0:
+			c := ids[r.Intn(len(ids))]
+			switch y := x - 20; {
+			case y < 2: // another SUBSCRIBE (also re-subscription with another QoS)
+				f := c15GenFilter(r)
+				in.Events = append(in.Events, c15Event{K: "sub", C: c, Subs: []c15Sub{{F: f, Q: r.PickInt(0, 1, 1)}}})
+				held[c] = append(held[c], f)
+			case y < 5: // UNSUBSCRIBE, mostly of something held: routing state changes before later messages
+				var fs []string
+				for j := r.PickInt(1, 1, 2); j > 0; j-- {
+					if len(held[c]) > 0 && r.Bool(4, 5) {
+						fs = append(fs, held[c][r.Intn(len(held[c]))])
+					} else {
+						fs = append(fs, c15GenFilter(r))
+					}
+				}
+				in.Events = append(in.Events, c15Event{K: "unsub", C: c, Fs: fs})
+			case y < 6:
+				in.Events = append(in.Events, c15Event{K: "disc", C: c})
+				held[c] = nil
+			default: // burst of client PUBLISH packets, acknowledged only after the whole burst was read
+				ev := c15Event{K: "pub", C: c}
+				base := r.PickInt(1, 10, 100, 65533)
+				for j := r.Range(1, 6); j > 0; j-- {
+					ev.Pubs = append(ev.Pubs, c15Pub{Topic: r.Pick("up/x", "up/y", "up/x", "drop/x"), QoS: r.PickInt(0, 1, 1, 1), ID: base % 65536})
+					base++
+				}
+				in.Events = append(in.Events, ev)
+			}
 		case x < 11 || len(ids) == 0:
 			ev := c15Event{K: "m", Via: "d", Topic: c15GenTopic(r), QoS: r.PickInt(0, 1, 1, 1), Payload: fmt.Sprintf("p%d", seq)}
 			seq++
